@@ -45,8 +45,9 @@ class Environment:
     Encapsulates a namespace for variable lookup
     """
 
-    def __init__(self, namespaces):
+    def __init__(self, namespaces, ids=None):
         self._namespaces = list(namespaces)
+        self._ids = ids
 
     @property
     def namespace(self):
@@ -71,11 +72,20 @@ class Environment:
                 if frame is None:
                     raise ValueError("call-stack is not that deep!")
                 frame = frame.f_back
-            return cls([frame.f_locals, frame.f_globals])
+            local_vars, global_vars = frame.f_locals, frame.f_globals
+            ids = [id(local_vars), id(global_vars)]
+            if local_vars is not global_vars:
+                # The local variables of a function are handed over as a dictionary that is brought up
+                # to date, in place, every time it is asked for. Without a copy, capturing the same
+                # frame again (building another design) changes what an earlier capture sees.
+                local_vars = dict(local_vars)
+            return cls([local_vars, global_vars], ids)
         finally:
             del frame
 
     def _namespace_ids(self):
+        if self._ids is not None:
+            return self._ids
         return [id(n) for n in self._namespaces]
 
     def __eq__(self, other):
